@@ -21,7 +21,8 @@ TRUSTED = [
 ]
 ASSUMPTIONS = [
     'admissible renderings (layout_ok): comments contain no "#" after the first, an even number of double quotes, no final '
-    'backslash and no "typedef"; comments inside typedefs use letters, digits, blanks, commas and periods only; a string is '
+    'backslash and no "typedef"; comments inside typedefs (struct AND, since round 5, enum blocks: after a label\'s comma, after the '
+    'last label, or on a line of their own; never before a comma) use letters, digits, blanks, commas and periods only; a string is '
     'written bare only if non-empty, free of blanks, "#", double quote, backslash and not starting with "{"; brace-wrapped only '
     'as a scalar, without braces, "#", quotes or outer blanks; no blank before a comma of an enum; continuation only between '
     'the tokens of a data row; char[] columns need at least one non-empty value (numpy cannot build a zero-width string '
@@ -226,13 +227,26 @@ class Layout:
         out += (self.ws(0) + self.eol() + self.ws(0)) + '}' + self.ws(0) + name + self.ws(0) + ';' + self.trailing() + self.eol()
         return out
 
+    def enum_comment(self, after_label):
+        """round 5: a comment inside an enum block -- trailing (after a label's comma, or after the last label) or on a line
+        of its own between labels.  Always closed by a line end.  Returns '' most of the time."""
+        if self.plain or self.rng.random() > 0.18:
+            return ''
+        self.use('comment-in-enum-block')
+        n = self.rng.randint(0, 20)
+        c = '#' + ''.join(self.rng.choice(SAFE_TD_COMMENT) for _ in range(n))
+        if after_label:
+            return self.ws(0) + c + self.eol() + self.ws(0)
+        return self.eol() + self.ws(0) + c + self.eol() + self.ws(0)
+
     def enum_text(self, e):
         out = self.ws(0) + 'typedef' + self.ws(1) + 'enum' + self.ws(0) + '{' + self.wsnl()
+        out += self.enum_comment(False)
         for i, lab in enumerate(e[2]):
             if i:
-                out += ',' + self.wsnl()
+                out += ',' + (self.enum_comment(True) or self.wsnl()) + self.enum_comment(False)
             out += lab
-        out += self.wsnl() + '}' + self.ws(0) + e[1] + self.ws(0) + ';' + self.trailing() + self.eol()
+        out += (self.enum_comment(True) or self.wsnl()) + '}' + self.ws(0) + e[1] + self.ws(0) + ';' + self.trailing() + self.eol()
         return out
 
     def pair_text(self, k, v):
@@ -361,6 +375,28 @@ def py_outcome(job, res):
     return 'ok', []
 
 
+def only_enum_width_differs(job, res, key='path'):
+    """The read differs from the document ONLY in the numpy width of enum columns (a comment inside an enum block taken
+    into a label widens the column)."""
+    exp = G.expected(job['doc'])
+    em = G.enum_map(job['doc'])
+    got = res_dump(res, key)
+    if got is None or [t['name'] for t in exp['tables']] != [t['name'] for t in got['tables']] or exp['pairs'] != [list(p) for p in got['pairs']]:
+        return False
+    diff = 0
+    for te, tg in zip(exp['tables'], got['tables']):
+        if len(te['cols']) != len(tg['cols']):
+            return False
+        for ce, cg in zip(te['cols'], tg['cols']):
+            if (ce['name'], ce['type'], ce['arr']) != (cg['name'], cg.get('type'), cg.get('arr')):
+                return False
+            if ce['np'] != cg.get('np'):
+                if ce['name'] not in em:
+                    return False
+                diff += 1
+    return diff > 0
+
+
 def features(job):
     f = set(G.features(job['doc']))
     f.discard('U-column')
@@ -402,7 +438,10 @@ def correspond(ctx, proof_ok=True):
                 sig = 'C02:harness:python-and-coq-spec-disagree'
             else:
                 m = re.search(r'\((\w+\.py:\w+)\)', det[0]) if (det and 'raised' in out) else None
-                sig = 'C02:layout:%s:%s' % (re.sub(r'^(path|text|bin)(_raw)?-', '', out), m.group(1) if m else '')
+                where = m.group(1) if m else ''
+                if out.endswith('types-differ') and job['used'].get('comment-in-enum-block') and only_enum_width_differs(job, res, out.split('-')[0]):
+                    where = 'enum-block-comment'
+                sig = 'C02:layout:%s:%s' % (re.sub(r'^(path|text|bin)(_raw)?-', '', out), where)
             failing.setdefault(sig, []).append((len(job['text']), job, res, v, out, det))
         elif v & 1:
             which = [n for b, n in ((8, 'text'), (16, 'binary'), (32, 'raw-text'), (64, 'raw-binary')) if v & b]
